@@ -4,6 +4,7 @@
 import SV.TxCache.EvictPost
 import SV.GenProofs.TxThresholds
 import SV.GenProofs.TxComparator
+import SV.GenProofs.TxLists
 import SV.TxCache.ReachableSize
 namespace SV.Props.C07
 open SV SV.TxCache
@@ -70,5 +71,11 @@ theorem every_reachable_survivor_stays_hashed (U : Bytes → Tx) (cfg : Config) 
     (hm : (s, l) ∈ (evict Variant.current (run cfg ops)).lists) (ht : t ∈ l) :
     alookup t.hash (evict Variant.current (run cfg ops)).byHash = some t :=
   reachable_survivors_stay_hashed U cfg ops hw s l t hm ht
+
+/-- the cut of a sender's suffix walks from the back and stops where the source's loop breaks (first nonce below the cut) -/
+theorem source_suffix_cut_is_the_models (n : Nat) (c : Tx) (rest : List Tx) :
+    dropHigherRev n (c :: rest) =
+      (if Gen.removeHigherStops c.nonce n = [true] then c :: rest else dropHigherRev n rest) :=
+  GenProofs.dropHigherRev_cons_eq_source n c rest
 
 end SV.Props.C07
